@@ -136,6 +136,34 @@ class SubstModel:
             self.symbols[op['name']] = op['value']
             self.source[op['name']] = 'define'
             return 'keep', [line]
+        if k == 'use_str':
+            # a symbol whose replacement text is a quoted string (may contain backslash escapes), used by .cstr / .byte
+            name, directive = op['name'], op['directive']
+            line = f'  {directive} {name}'
+            if name not in self.symbols:
+                return None
+            try:
+                final = self.expand(name)
+            except Reject:
+                return 'probe', [line]
+            m = re.fullmatch(r'"((?:[^"\\]|\\.)*)"', final.strip())
+            if not m:
+                return None
+            try:
+                txt = bytes(m.group(1), 'utf-8').decode('unicode_escape')
+            except Exception:
+                return None
+            vals = [ord(ch) & 0xFF for ch in txt]
+            if directive in ('.cstr', '.asciiz'):
+                vals.append(0)
+            if not vals:
+                return None
+            self.out += vals
+            self.probes['string_valued_symbol_used'] = self.probes.get('string_valued_symbol_used', 0) + 1
+            if '\\' in m.group(1):
+                self.probes['replacement_text_with_backslash'] = self.probes.get('replacement_text_with_backslash', 0) + 1
+            self.shape.append(('str', len(vals), directive))
+            return 'keep', [line]
         if k == 'use':
             text = op['text']
             directive = op.get('directive', '.byte')
@@ -185,6 +213,8 @@ def world_for(case, lines):
     argv = ['bespokeasm', 'compile', '-c', 'isa.yaml', 'main.asm']
     for n, v in case['cli_symbols'].items():
         argv += ['-D', n if v == '' else f'{n}={v}']
+    for raw in case.get('cli_raw', []):
+        argv += ['-D', raw]
     return {'files': {f'{PDIR}/isa.yaml': gen.isa_text(isa_for(case['pre_symbols']), 'yaml'),
                       f'{PDIR}/main.asm': '\n'.join(lines + ['  .byte $EE']) + '\n'},
             'argv': argv, 'cwd': PDIR, 'env': {'HOME': '/sim/home'}, 'step_budget': 3_000_000}
@@ -369,6 +399,50 @@ def make_machine(stats, box):
         def use_blind(self, e, d):
             self.do({'op': 'use', 'text': e, 'directive': d})
 
+        @rule(n=name, sv=st.sampled_from(['"ab"', '"a\\n"', '"x\\ty"', '"q\\\\z"', '"\\x41b"', '"A,B"', '"1 2"']))
+        def define_string(self, n, sv):
+            self.do({'op': 'define', 'name': n, 'value': sv})
+
+        @rule(data=st.data(), d=st.sampled_from(['.cstr', '.byte', '.asciiz']))
+        def use_string(self, data, d):
+            strs = sorted(k for k, v in self.model.symbols.items() if '"' in v or any(
+                '"' in self.model.symbols.get(w, '') for w in WORD.findall(v)))
+            if strs:
+                self.do({'op': 'use_str', 'name': data.draw(st.sampled_from(strs)), 'directive': d})
+
+        @rule(data=st.data(), v=st.integers(min_value=1, max_value=30), w=st.integers(min_value=1, max_value=30))
+        def idiom_late_definition(self, data, v, w):
+            """#define X Y+1 while Y is only a constant; use X; #define Y w; use X again (and Y alone)"""
+            m = self.model
+            ys = [y for y in ('BA', 'AB1') if y not in m.symbols]
+            xs = [x for x in NAMES if x not in m.symbols and x not in ('BA', 'AB1')]
+            if not ys or not xs:
+                return
+            y = data.draw(st.sampled_from(ys))
+            x = data.draw(st.sampled_from(xs))
+            if y not in m.consts:
+                self.do({'op': 'const', 'name': y, 'value': v})
+            self.do({'op': 'define', 'name': x, 'value': f'{y}+1'})
+            self.do({'op': 'use', 'text': x, 'directive': '.byte'})
+            self.do({'op': 'define', 'name': y, 'value': str(w)})
+            self.do({'op': 'use', 'text': x, 'directive': '.byte'})
+            self.do({'op': 'use', 'text': f'{y} + {x}', 'directive': '.byte'})
+
+        @rule(data=st.data())
+        def idiom_late_cycle(self, data):
+            """a cycle that is closed only after one member was already used"""
+            m = self.model
+            free = [x for x in NAMES if x not in m.symbols and x not in m.consts]
+            if len(free) < 2:
+                return
+            a, b = free[0], free[1]
+            self.do({'op': 'const', 'name': b, 'value': 4}) if b in CONST_NAMES else None
+            self.do({'op': 'define', 'name': a, 'value': f'{b}+1'})
+            if b in m.consts:
+                self.do({'op': 'use', 'text': a, 'directive': '.byte'})
+            self.do({'op': 'define', 'name': b, 'value': f'{a}+1'})
+            self.do({'op': 'use', 'text': a, 'directive': '.byte'})
+
         def draw_expr(self, data):
             """an expression over what is usable right now: defined symbols, defined constants (preferring those
             whose name contains a defined symbol's name), literals"""
@@ -430,8 +504,14 @@ def explore(subseed, cfg):
     # one-shot collision probes between the two up-front sources
     rnd = random.Random(subseed)
     n = rnd.choice(NAMES)
+    n2 = rnd.choice([x for x in NAMES if x != n])
+    dupform = rnd.choice([[f'{n}=3', f'{n}=4'], [f'{n}=3', f'{n}=3'], [n, f'{n}=1'], [f'{n}=1', n], [n, n],
+                          [f'{n}=3', f'{n2}=1', f'{n}=4']])
     for kind, case in (
-            ('cli-vs-isa', {'pre_symbols': {n: '1'}, 'cli_symbols': {n: '2'}, 'ops': [], 'kind': 'init-collision'}),):
+            ('cli-vs-isa', {'pre_symbols': {n: '1'}, 'cli_symbols': {n: '2'}, 'ops': [], 'kind': 'init-collision'}),
+            ('cli-vs-isa-novalue', {'pre_symbols': {n: ''}, 'cli_symbols': {n: ''}, 'ops': [], 'kind': 'init-collision'}),
+            ('cli-vs-cli', {'pre_symbols': {}, 'cli_symbols': {}, 'cli_raw': dupform, 'ops': [],
+                            'kind': 'init-collision'}),):
         v, r = init_probe_violations(case)
         stats['runs'] += 1
         stats['evaluations'] += 1
